@@ -843,3 +843,21 @@ def mutate_live(obj, c):
     else:
         raw[0] = (int(raw[0]) + 1) % len(ALPH[c["enc"]])
     return True
+
+
+def tags(c, got):
+    """input distribution recorded in the evidence"""
+    t = ["op:" + c["op"]]
+    if "enc" in c:
+        t.append("enc:" + c["enc"])
+    if "ops" in c:
+        t.append("program-length:" + str(min(len(c["ops"]), 6)))
+        t += ["step:" + o["o"] + (":" + o["ix"]["t"] if o["o"] in ("index", "setFlat") else "") for o in c["ops"]]
+    if "v" in c:
+        v = c["v"]
+        t.append("value:" + v["t"] + (":empty-rows" if v["t"] == "rag" and any(len(r) == 0 for r in v["r"]) else ""))
+    if "obs" in c:
+        t.append("obs:" + c["obs"])
+    if isinstance(got, dict):
+        t.append("outcome:" + ("raises" if "err" in got else "returns"))
+    return t
